@@ -455,7 +455,15 @@ static void run_history(const char *dir, char **lines, long *lnos, long nlines)
         }
         else if (!strcmp(op, "sizeof")) {
             sscanf(line, "%*s %ld %s", &v, s1);
+            VDATA *vs = tracing ? vs_of(vid[v]) : NULL;
+            if (vs && vs->wlist.n > 0) {
+                printf("MC %ld vssizeof", ln); pwl(&vs->wlist); printf(" ");
+                for (int j = 0; j < vs->wlist.n; j++) printf("%s%s", j ? "," : "", vs->wlist.name[j]);
+                printf(" %s\n", s1);
+            }
+            else vs = NULL;
             int32 r = VSsizeof(vid[v], s1);
+            if (vs) printf("MR %ld %d\n", ln, (int)r);
             if (r == FAIL) printf("%ld fail\n", ln); else printf("%ld ok %d\n", ln, (int)r);
         }
         else if (!strcmp(op, "field")) {
